@@ -667,6 +667,43 @@ def with_waters(rng, text):
     return "\n".join(body + ws + end) + "\n"
 
 
+def crystal_water_case(ctx: Ctx, seen_sig):
+    """one deposited structure with its ~200 crystal waters (tests/data/1AFS.pdb), default options: only a crowded
+    hydrogen-bond network makes a water accept, donate and accept again before its last hydrogen is placed in the one
+    free tetrahedral slot (Optimize.get_position_with_three_bonds). Oracle on every water of the final model: the
+    two added hydrogens are two atoms (not within 0.5 A of each other or of the oxygen), each at the template O-H length
+    (0.25 A), H-O-H between 90 and 125 degrees."""
+    p = G.DATA / "1AFS.pdb"
+    if not p.exists():
+        ctx.count("crystal-waters", "1AFS.pdb not available")
+        return
+    text = p.read_text()
+    opts = ["--ff=AMBER", "--keep-chain"]
+    r = G.run_pipeline(text, opts)
+    ctx.evaluations += 1
+    ctx.count("crystal-waters", r.status)
+    ctx.distinct.add(("crystal-waters", "1AFS"))
+    if r.status != "ok":
+        return
+    nw = 0
+    for res in r.biomolecule.residues:
+        if res.name not in ("HOH", "WAT") or not (res.has_atom("O") and res.has_atom("H1") and res.has_atom("H2")):
+            continue
+        nw += 1
+        o, h1, h2 = (res.get_atom(n).coords for n in ("O", "H1", "H2"))
+        d1, d2, dhh = dist(o, h1), dist(o, h2), dist(h1, h2)
+        cosang = sum((a - c) * (b - c) for a, b, c in zip(h1, h2, o)) / (d1 * d2) if d1 > 1e-9 and d2 > 1e-9 else 1.0
+        ang = math.degrees(math.acos(max(-1.0, min(1.0, cosang))))
+        bad = "coincident" if min(d1, d2, dhh) < 0.5 else "bond" if abs(d1 - 1.0) > 0.25 or abs(d2 - 1.0) > 0.25 else "angle" if not 90.0 <= ang <= 125.0 else None
+        if bad:
+            sig = {"kind": "water-" + bad, "residue": "HOH", "stream": "crystal-waters"}
+            k = tuple(sorted(sig.items()))
+            if k not in seen_sig:
+                seen_sig.add(k)
+                ctx.violate(sig, f"{res}: O-H1 {d1:.3f} O-H2 {d2:.3f} H1-H2 {dhh:.3f} A, H-O-H {ang:.1f} degrees (1AFS with its crystal waters, {' '.join(opts)})", {"pdb": text, "options": opts, "stream": "crystal-waters"})
+    ctx.count("crystal-waters-checked", "200+" if nw >= 200 else "<200", nw) if False else ctx.count("crystal-waters-checked", "200+" if nw >= 200 else "<200")
+
+
 def run(ctx: Ctx):
     G.quiet()
     rng = ctx.rng
@@ -678,6 +715,7 @@ def run(ctx: Ctx):
     )
     seen_sig = set()
     nearest_tie(ctx, drv)
+    crystal_water_case(ctx, seen_sig)
     # inputs that carry two hydrogens of a group of three, one of them off its ideal position (hydrogens that were
     # not made by pdb2pqr): the third one must go to the free position
     for ci in range(ctx.scale(12, 300)):
@@ -709,6 +747,12 @@ def run(ctx: Ctx):
 def replay(ctx: Ctx, data: dict) -> bool:
     G.quiet()
     rp = data.get("replay", data)
+    if rp.get("stream") == "crystal-waters":
+        n0 = len(ctx.violations)
+        crystal_water_case(ctx, set())
+        for v in ctx.violations[n0:]:
+            print(v["what"])
+        return len(ctx.violations) > n0
     drv = Driver()
     with Monitor() as m:
         r = G.run_pipeline(rp["pdb"], rp["options"])
